@@ -209,6 +209,25 @@ def bookkeeping(run, rng):
                              rp, concrete=False)
 
 
+def kept_order_probe(run):
+    """the density-matrix route relies on tuple(set(range(n)) ^ set(traced)) being ASCENDING (the model's
+    `complement`); that is a CPython set-iteration detail, checked here exhaustively for n <= 10"""
+    bad = None
+    cnt = 0
+    for n in range(1, 11):
+        for k in range(n + 1):
+            for S in itertools.combinations(range(n), k):
+                kept = tuple(set(list(range(n))) ^ set(S))
+                cnt += 1
+                if list(kept) != sorted(kept):
+                    bad = bad or (n, list(S), list(kept))
+    run.case({"kept_order_probe": cnt}, True)
+    run.notes["kept_qubits_ascending_checked_subsets"] = cnt
+    if bad:
+        run.find("partial_trace:kept_order", f"set iteration order is not ascending for n={bad[0]}, traced={bad[1]}: kept={bad[2]}; "
+                 "the reduced state would come out with permuted qubits", {"n": bad[0], "traced": bad[1]})
+
+
 # ----------------------------------------------------------------------------- C. classical measures
 def bits_lit(b):
     return "[" + ";".join("true" if x else "false" for x in b) + "]"
@@ -709,12 +728,20 @@ def main(run):
     warnings.simplefilter("ignore")
     np.seterr(all="ignore")
     bookkeeping(run, rng)
+    kept_order_probe(run)
     classical(run, rng)
     seed_machine(run, rng)
     T = Tests(run)
     formulas(run, rng, T)
     spectral(run, rng, T)
     generators(run, rng, T)
+    seen, uniq = set(), []
+    for f in run.findings:          # one finding per key (the first failing case is the replay)
+        if f.key not in seen:
+            seen.add(f.key)
+            uniq.append(f)
+    run.notes["failing_cases_per_key"] = {k: sum(1 for f in run.findings if f.key == k) for k in seen}
+    run.findings = uniq
     run.notes["test_labelled_checks"] = T.n
     run.notes["test_labelled_failures"] = T.failed
     return run.finish(level="proof", rule=RULE)
@@ -735,5 +762,5 @@ def replay(run, data):
         formulas(run, rng, T)
         spectral(run, rng, T)
         generators(run, rng, T)
-    run.findings = [f for f in run.findings if f.key == key]
+    run.findings = [f for f in run.findings if f.key == key][:1]
     return run.finish(rule="replay of one recorded finding (the generating section is re-executed with the recorded seed)")
